@@ -321,4 +321,31 @@ theorem pairingView_reload (ep : Endpoint) : ep.reload.pairingView = ep.pairingV
   cases ep with
   | mk tokn ra de dm p n => cases p <;> simp [Endpoint.reload, Endpoint.pairingView, Pairing.reload]
 
+/-! ## Revocation by id (ids are `pair-<seconds>`, hence not unique) -/
+
+theorem revoke_disables_id (p : Pairing) (now : Nat) (id : String) :
+    ∀ e ∈ (p.revoke now id).1.tokens, e.id = id → e.enabled = false := by
+  intro e he hid
+  simp only [Pairing.revoke, List.mem_map] at he
+  obtain ⟨t, _, rfl⟩ := he
+  by_cases h : t.id = id
+  · simp [h]
+  · simp [h] at hid
+
+theorem revoke_token_none (p : Pairing) (now : Nat) (id tok : String)
+    (h : ∀ e ∈ p.tokens, e.token = tok → e.id = id) :
+    lookupToken (prune now (p.revoke now id).1.tokens) tok = none := by
+  unfold lookupToken
+  simp only [Option.map_eq_none_iff, List.find?_eq_none]
+  intro x hx
+  have hx' := (List.mem_filter.1 hx).1
+  simp only [Pairing.revoke, List.mem_map] at hx'
+  obtain ⟨t, ht, rfl⟩ := hx'
+  have htm : t ∈ p.tokens := (List.mem_filter.1 ht).1
+  by_cases hid : t.id = id
+  · simp [hid]
+  · simp only [hid, if_false, Bool.and_eq_true, decide_eq_true_eq, not_and]
+    intro _ htok
+    exact hid (h t htm htok)
+
 end TrustVerif.C18
